@@ -27,6 +27,37 @@ type State struct {
 type symHeaps struct {
 	names []string
 	sorts []string
+	noRow map[string]bool // heaps that must be passed whole (row refs vary between recursive calls)
+	rows  []symRow // per-object rows of two-level heaps (see recSpecCall)
+}
+
+type symRow struct {
+	heap string // heap name
+	sort string // sort of the row (Array Int leaf)
+	ref  string // object term, in terms of the definition's bound names
+	name string // bound variable standing for (select heap ref)
+}
+
+// elemRow returns the row (select heap ref) of a two-level heap.  Inside the
+// definition of a recursive spec function the row is a bound variable of its
+// own, so that the function depends only on the objects it reads and not on
+// the whole heap (allocations elsewhere do not invalidate facts about it).
+func (f *FuncVC) elemRow(st *State, hn, rowSort, ref string) string {
+	if st.sym != nil && !st.sym.noRow[hn] {
+		for _, r := range st.sym.rows {
+			if r.heap == hn && r.ref == ref {
+				return r.name
+			}
+		}
+		bn := f.sc.fresh("row")
+		st.sym.rows = append(st.sym.rows, symRow{hn, rowSort, ref, bn})
+		f.boundActive = append(f.boundActive, bn)
+		if _, ok := f.heapSorts[hn]; !ok {
+			f.heapSorts[hn] = "(Array Int " + rowSort + ")"
+		}
+		return bn
+	}
+	return sel(f.heap(st, hn, "(Array Int "+rowSort+")"), ref)
 }
 
 func (s *State) clone() *State {
@@ -321,9 +352,14 @@ func (f *FuncVC) load(st *State, p *Val, ty types.Type) *Val {
 	v := build(ty, func(l Leaf) string {
 		hn := loc.Heap + ps + l.Path
 		sort := arraySort(len(loc.Base)+nIdx, l.Sort)
-		t := f.heap(st, hn, sort)
-		for _, b := range loc.Base {
-			t = sel(t, b)
+		var t string
+		if len(loc.Base) == 2 {
+			t = sel(f.elemRow(st, hn, arraySort(1+nIdx, l.Sort), loc.Base[0]), loc.Base[1])
+		} else {
+			t = f.heap(st, hn, sort)
+			for _, b := range loc.Base {
+				t = sel(t, b)
+			}
 		}
 		for _, e := range loc.Path {
 			if e.Field == "" {
